@@ -215,6 +215,11 @@ func (s *scn) locate(files map[string]string, calls []*call, detail func() map[s
 			// in the order of the file
 			p.junk = mergeByLine(p.junk, p.notok)
 		}
+		if len(p.proc) > 0 {
+			d := detail()
+			d["file"], d["lines"] = name, firstN(p.proc, 8)
+			s.c.Fail("FileLogger:process-log-line-in-log-file", fmt.Sprintf("%s holds %d line(s) the process itself printed through log.Print; first: %s", name, len(p.proc), clip(p.proc[0], 200)), d)
+		}
 		if len(p.junk) > 0 {
 			d := detail()
 			d["file"] = name
